@@ -64,6 +64,8 @@ pub struct Inner {
     pub steps: u64,
     pub max_steps: u64,
     pub aborted: bool,
+    /// threads that ended by panicking (counted whether or not the event log is on)
+    pub panics: usize,
     /// PCT-like bias: a thread that is "preferred" keeps the baton with this probability (per 1000)
     pub p_stay: u64,
 }
@@ -241,6 +243,7 @@ impl Runtime {
                 steps: 0,
                 max_steps: cfg.max_steps,
                 aborted: false,
+                panics: 0,
                 p_stay: cfg.p_stay,
             }),
         })
@@ -359,6 +362,8 @@ pub struct Report {
     pub clock: u64,
     pub threads: Vec<(String, TState)>,
     pub aborted: bool,
+    /// threads that ended by panicking (counted whether or not the event log is on)
+    pub panics: usize,
 }
 
 /// Runs `f` as controlled thread 0 under a fresh runtime.  Threads that are still blocked or
@@ -375,6 +380,7 @@ pub fn run<R, F: FnOnce() -> R>(cfg: &Config, f: F) -> (R, Report) {
         clock: g.clock,
         threads: g.threads.iter().map(|t| (t.name.clone(), t.state.clone())).collect(),
         aborted: g.aborted,
+        panics: g.panics,
     };
     drop(g);
     CUR.with(|c| *c.borrow_mut() = None);
